@@ -128,6 +128,19 @@ def _history(ctx, E):
     repo = ctx.repo
     meths = ("plan", "compute", "compute_single_bin", "_lpsd_core")
     reads = {m: _attr_reads(repo.get(f"{AN}.{m}")) for m in meths}
+    # the memoised plan may only be consulted through plan() (which returns the same plan whether it was cached or not): a method that
+    # looks at the cache directly behaves differently depending on whether plan()/compute() ran before
+    for m in meths:
+        if m == "plan" or m.startswith("_"): continue      # private workers run after compute() obtained the plan through plan()
+        key = f"{AN}.{m}"
+        hits = [r for r in reads[m] if r == "self._plan_cache" or r.startswith("self._plan_cache[")]
+        if hits:
+            fnm = repo.get(key)
+            node = next((n_ for n_ in ast.walk(fnm) if isinstance(n_, ast.Attribute) and n_.attr == "_plan_cache"), fnm)
+            ctx.violated("R3-call-history", f"{key}[reads self._plan_cache]", f"{m}() consults the memoised plan directly: its result depends on whether plan() or compute() was called on this "
+                         "analyzer before (cache empty vs filled)", f"speckit/analysis.py:{getattr(node, 'lineno', 0)}")
+        else:
+            ctx.holds("R3-call-history", f"{key}[reads self._plan_cache]", "does not look at the plan cache (uses plan() if it needs the plan)", repo.where(key, repo.get(key)))
     for m in meths:
         key = f"{AN}.{m}"; fn = repo.get(key); ctx.analysed(key)
         for p, node in _attr_writes(fn):
